@@ -1,8 +1,322 @@
+import DeapModel.Core.CmaElitist
 import Driver.Proto
-/-! Protocol handler for C14 (stub until the model is built). -/
+/-! Protocol handler for C14 (elitist / multi-objective CMA-ES), `Float` instance of the model.
+
+Tokens: a float is `f:<bits>`; a vector is a comma list; a matrix a `;` list of rows; a list of
+matrices a `|` list (input only; answers print one matrix per token); a fitness is a vector of
+weighted values (`none` = invalid / absent).  `raise` answers a modelled exception. -/
 namespace DriverC14
+open Proto CmaElitist
+
+abbrev V := List Float
+abbrev M := List (List Float)
+
+def pVec (s : String) : Option V := parseList parseFloat s
+def pMat (s : String) : Option M := parseList2 parseFloat s
+def pMats (s : String) : Option (List M) :=
+  if s = "-" || s = "" then some [] else (s.splitOn "|").mapM pMat
+def pNats (s : String) : Option (List Nat) := parseList parseNat s
+def pNats2 (s : String) : Option (List (List Nat)) := parseList2 parseNat s
+def pOptVec (s : String) : Option (Option V) := if s = "none" then some none else (pVec s).map some
+def pOptMat (s : String) : Option (Option M) := if s = "none" then some none else (pMat s).map some
+def pOptVecs (s : String) : Option (List (Option V)) :=
+  if s = "-" || s = "" then some [] else (s.splitOn ";").mapM pOptVec
+def pOptMats (s : String) : Option (List (Option M)) :=
+  if s = "-" || s = "" then some [] else (s.splitOn "|").mapM pOptMat
+/-- rows of flags, one row per individual (`-` = an individual without flags) -/
+def pBools2 (s : String) : Option (List (List Bool)) := (s.splitOn ";").mapM (parseList parseBool)
+
+def sF := showFloat
+def sVec (v : V) : String := showList showFloat v
+def sMat (m : M) : String := showList2 showFloat m
+def sMats (l : List M) : String := if l.isEmpty then "-" else " ".intercalate (l.map sMat)
+def sNats (l : List Nat) : String := showList toString l
+def sOptVec : Option V → String
+  | none => "none"
+  | some v => sVec v
+
+/-- Lexicographic tuple comparison of weighted values (`Fitness.__lt__` / `__le__`; no NaN). -/
+def lexLt : V → V → Bool
+  | [], [] => false
+  | [], _ :: _ => true
+  | _ :: _, [] => false
+  | a :: as, b :: bs => if a == b then lexLt as bs else a < b
+def lexLe : V → V → Bool
+  | [], _ => true
+  | _ :: _, [] => false
+  | a :: as, b :: bs => if a == b then lexLe as bs else a ≤ b
+def ord : FitOrd V := ⟨lexLe, lexLt⟩
+
+def allLen {β : Type} (n : Nat) (l : List (List β)) : Bool := l.all (fun r => r.length == n)
+def square (n : Nat) (m : M) : Bool := m.length == n && allLen n m
+
+/-! #### (1+λ) -/
+
+def pOPParams : List String → Option (OnePlus.Params Float)
+  | [l, d, pt, cp, cc, ccov, pth] => do
+    let l ← parseNat l
+    some ⟨l, ← parseFloat d, ← parseFloat pt, ← parseFloat cp, ← parseFloat cc, ← parseFloat ccov,
+          ← parseFloat pth⟩
+  | _ => none
+
+def mkInds (ids : List Nat) (fits : List V) (xs : M) : Option (List (Ind V Float)) :=
+  if ids.length = fits.length ∧ ids.length = xs.length then
+    some ((List.zip ids (List.zip fits xs)).map (fun t => { id := t.1, x := t.2.2, fit := t.2.1 }))
+  else none
+
+def opUpd (args : List String) : Option String := do
+  match args with
+  | [l, d, pt, cp, cc, ccov, pth, pid, pfit, px, sigma, C, A, pc, psucc, ids, fits, xs, cholA] =>
+    let prm ← pOPParams [l, d, pt, cp, cc, ccov, pth]
+    let px ← pVec px
+    let n := px.length
+    let C ← pMat C; let A ← pMat A; let pc ← pVec pc; let cholA ← pMat cholA
+    let xs ← pMat xs
+    if !(square n C && square n A && square n cholA && pc.length == n && allLen n xs) then none
+    let pop ← mkInds (← pNats ids) (← parseList2 parseFloat fits) xs
+    let s : OnePlus.State V Float :=
+      { parent := { id := ← parseNat pid, x := px, fit := ← pVec pfit }, sigma := ← parseFloat sigma,
+        C := C, A := A, pc := pc, psucc := ← parseFloat psucc, prm := prm }
+    match OnePlus.update ord (fun _ => cholA) s pop with
+    | none => some "raise"
+    | some o =>
+      some (" ".intercalate [sNats (o.sorted.map (·.id)), toString o.lambdaSucc, showBool o.replaced,
+        toString o.st.parent.id, sVec o.st.parent.fit, sVec o.st.parent.x, sF o.st.psucc,
+        sF o.st.sigma, sVec o.st.pc, sMat o.st.C, sMat o.st.A])
+  | _ => none
+
+/-- Whole-history elitism: only fitnesses and ids matter (dimension-0 numerics). -/
+def opElit (lam pid pfit : String) (rounds : List String) : Option String := do
+  let lam ← parseNat lam
+  let s0 : OnePlus.State V Float :=
+    OnePlus.init { id := ← parseNat pid, x := [], fit := ← pVec pfit } 1.0 (OnePlus.defaultParams 1 lam)
+  let pops ← rounds.mapM (fun r => match r.splitOn "|" with
+    | [ids, fits] => do
+      let ids ← pNats ids
+      let fits ← parseList2 parseFloat fits
+      mkInds ids fits (ids.map (fun _ => []))
+    | _ => none)
+  let rec go (s : OnePlus.State V Float) (ps : List (List (Ind V Float))) (acc : List String) : List String :=
+    match ps with
+    | [] => acc.reverse
+    | p :: rest =>
+      match OnePlus.update ord (fun c => c) s p with
+      | none => ("raise" :: acc).reverse
+      | some o => go o.st rest
+          ((toString o.st.parent.id ++ "/" ++ toString o.lambdaSucc ++ "/" ++ sNats (o.sorted.map (·.id))) :: acc)
+  some (if pops.isEmpty then "-" else " ".intercalate (go s0 pops []))
+
+/-! #### MO -/
+
+def pMOParams : List String → Option (MO.Params Float)
+  | [mu, l, d, pt, cp, cc, ccov, pth] => do
+    some ⟨← parseNat mu, ← parseNat l, ← parseFloat d, ← parseFloat pt, ← parseFloat cp, ← parseFloat cc,
+          ← parseFloat ccov, ← parseFloat pth⟩
+  | _ => none
+
+/-- tag token `o3` / `p1`. -/
+def pTag (s : String) : Option (Bool × Nat) :=
+  if s.startsWith "o" then (parseNat (s.drop 1).toString).map (fun n => (true, n))
+  else if s.startsWith "p" then (parseNat (s.drop 1).toString).map (fun n => (false, n))
+  else none
+def sTag (i : MO.MInd Float) : String := (if i.off then "o" else "p") ++ toString i.pidx
+
+def mkMInds (start : Nat) (xs wvs : M) (tags : List (Bool × Nat)) : Option (List (MO.MInd Float)) :=
+  if xs.length = wvs.length ∧ xs.length = tags.length then
+    some ((List.zipIdx (List.zip xs (List.zip wvs tags))).map (fun t =>
+      { id := start + t.2, x := t.1.1, wv := t.1.2.1, off := t.1.2.2.1, pidx := t.1.2.2.2 }))
+  else none
+
+/-- The indicator answers as an association list `len:idx`. -/
+def pAssoc (s : String) : Option (List (Nat × Nat)) :=
+  parseList (fun t => match t.splitOn ":" with
+    | [a, b] => do some (← parseNat a, ← parseNat b)
+    | _ => none) s
+
+def tapeInd {ι : Type} (tape : List (Nat × Nat)) (l : List ι) : Nat :=
+  match tape.lookup l.length with
+  | some i => i
+  | none => l.length   -- unanswered call: out of range, the model answers `raise`
+
+def byIds {ι : Type} (ids : List (List Nat)) (cands : List ι) : Option (List (List ι)) :=
+  ids.mapM (fun f => f.mapM (fun i => cands[i]?))
+
+def opMoSel (mu ncand fronts tape : String) : Option String := do
+  let mu ← parseNat mu; let n ← parseNat ncand
+  let fr ← pNats2 fronts; let tape ← pAssoc tape
+  if !(fr.all (fun f => f.all (fun i => i < n))) then none
+  match MO.selectFronts mu fr (tapeInd tape) (List.range n) with
+  | none => some "raise"
+  | some (c, nc) => some (sNats c ++ " " ++ sNats nc)
+
+def opMoUpd (args : List String) : Option String := do
+  match args with
+  | [dim, nobj, mu, l, d, pt, cp, cc, ccov, pth, pxs, pwvs, ptags, sigmas, As, invs, pcs, psuccs,
+     oxs, owvs, otags, fronts, tape] =>
+    let dim ← parseNat dim; let nobj ← parseNat nobj
+    let prm ← pMOParams [mu, l, d, pt, cp, cc, ccov, pth]
+    let pxs ← pMat pxs; let oxs ← pMat oxs
+    let m := pxs.length
+    let parents ← mkMInds oxs.length pxs (← pMat pwvs) (← parseList pTag ptags)
+    let pop ← mkMInds 0 oxs (← pMat owvs) (← parseList pTag otags)
+    let sigmas ← pVec sigmas; let As ← pMats As; let invs ← pMats invs
+    let pcs ← pMat pcs; let psuccs ← pVec psuccs
+    if !(sigmas.length == m && As.length == m && invs.length == m && pcs.length == m && psuccs.length == m
+         && As.all (square dim) && invs.all (square dim) && allLen dim pcs && allLen dim pxs
+         && allLen dim oxs) then none
+    if !((pop ++ parents).all (fun i => i.wv.length == nobj && i.pidx < m)) then none
+    let fr ← pNats2 fronts; let tape ← pAssoc tape
+    let cands := pop ++ parents
+    let frI ← byIds fr cands
+    let s : MO.State Float := { dim := dim, parents := parents, sigmas := sigmas, A := As, invCh := invs,
+                                pc := pcs, psucc := psuccs, prm := prm }
+    match MO.update s nobj (fun _ => frI) (fun l _ => tapeInd tape l) pop with
+    | none => some "raise"
+    | some (s', nc) =>
+      some (" ".intercalate [sNats (s'.parents.map (·.id)), sNats (nc.map (·.id)),
+        sVec (MO.refPoint nobj cands), sVec s'.sigmas, sVec s'.psucc, sMat s'.pc, sMats s'.A, sMats s'.invCh])
+  | _ => none
+
+def opMoGen (args : List String) : Option String := do
+  match args with
+  | [dim, mu, l, pxs, sigmas, As, arz, ff, draws] =>
+    let dim ← parseNat dim; let mu ← parseNat mu; let l ← parseNat l
+    let pxs ← pMat pxs; let m := pxs.length
+    let sigmas ← pVec sigmas; let As ← pMats As; let arz ← pMat arz
+    let ff ← pNats ff; let draws ← pNats draws
+    if !(sigmas.length == m && As.length == m && As.all (square dim) && allLen dim pxs && allLen dim arz
+         && arz.length == l && ff.all (· < m)) then none
+    if l != mu && !(draws.length == l && draws.all (· < ff.length)) then none
+    let parents : List (MO.MInd Float) := (List.zipIdx pxs).map (fun t => ⟨t.2, t.1, [], false, 0⟩)
+    let s : MO.State Float := { dim := dim, parents := parents, sigmas := sigmas, A := As, invCh := As,
+                                pc := [], psucc := [], prm := { (MO.defaultParams dim mu l) with } }
+    let r := MO.generate s arz (fun ps => ff.filterMap (fun i => ps[i]?)) draws
+    some (sNats (r.1.map (·.pidx)) ++ " " ++ sMat (r.2.map (·.1)) ++ " " ++ sNats (r.2.map (·.2)))
+  | _ => none
+
+/-! #### active (1+λ) -/
+
+def pActParams : List String → Option (Active.Params Float)
+  | [l, cc, ccovp, ccovn, cconst, pth, d, pt, cp, beta] => do
+    some ⟨← parseNat l, ← parseFloat cc, ← parseFloat ccovp, ← parseFloat ccovn, ← parseFloat cconst,
+          ← parseFloat pth, ← parseFloat d, ← parseFloat pt, ← parseFloat cp, ← parseFloat beta⟩
+  | _ => none
+
+/-- `numpy.around` on a double: round half to even. -/
+def around (x : Float) : Float :=
+  let f := x.floor
+  let d := x - f
+  if d < 0.5 then f else if 0.5 < d then f + 1.0
+  else if (f / 2.0).floor * 2.0 == f then f else f + 1.0
+
+def opActUpd (args : List String) : Option String := do
+  match args with
+  | [l, cc, ccovp, ccovn, cconst, pth, d, pt, cp, beta,
+     pid, pfit, px, sigma, A, invA, pc, psucc, sInt, iIR, cvecs, anc,
+     ids, fits, cvs, xs, ys, zs, invTape] =>
+    let prm ← pActParams [l, cc, ccovp, ccovn, cconst, pth, d, pt, cp, beta]
+    let px ← pVec px; let n := px.length
+    let A ← pMat A; let invA ← pMat invA; let pc ← pVec pc; let sInt ← pVec sInt
+    let cvecs ← pOptMat cvecs
+    let ids ← pNats ids; let fits ← pOptVecs fits; let cvs ← pBools2 cvs
+    let xs ← pMat xs; let ys ← pMat ys; let zs ← pMat zs
+    let k := ids.length
+    if !(square n A && square n invA && pc.length == n && sInt.length == n && fits.length == k
+         && cvs.length == k && xs.length == k && ys.length == k && zs.length == k && allLen n xs
+         && allLen n ys && allLen n zs) then none
+    if !(match cvecs with | none => true | some c => allLen n c) then none
+    let invT ← pOptMats invTape
+    let pop : List (Active.AInd V Float) :=
+      (List.zip ids (List.zip fits (List.zip cvs (List.zip xs (List.zip ys zs))))).map (fun t =>
+        { id := t.1, fit := t.2.1, cv := t.2.2.1, x := t.2.2.2.1, y := t.2.2.2.2.1, z := t.2.2.2.2.2 })
+    let s : Active.State V Float :=
+      { dim := n, parentId := ← parseNat pid, parentX := px, parentFit := ← pOptVec pfit,
+        sigma := ← parseFloat sigma, A := A, invA := invA, pc := pc, psucc := ← parseFloat psucc,
+        sInt := sInt, iIR := ← pNats iIR, constraintVecs := cvecs,
+        ancestors := ← parseList2 parseFloat anc, prm := prm }
+    let o := Active.update ord (fun k _ => (invT.getD k none)) s pop
+    let t := o.st
+    some (" ".intercalate [toString t.parentId, sOptVec t.parentFit, sVec t.parentX, sF t.sigma, sF t.psucc,
+      sVec t.pc, sMat t.A, sMat t.invA,
+      (match t.constraintVecs with | none => "none" | some c => sMat c),
+      showList2 showFloat t.ancestors, sNats t.iIR, sNats o.sortedValid, toString o.lambdaSucc])
+  | _ => none
+
+def opActGen (px sigma A sInt zs rInt : String) : Option String := do
+  let px ← pVec px; let n := px.length
+  let A ← pMat A; let sInt ← pVec sInt; let zs ← pMat zs; let rInt ← pMat rInt
+  if !(square n A && sInt.length == n && allLen n zs && allLen n rInt && zs.length == rInt.length) then none
+  let s : Active.State V Float :=
+    { (Active.init 0 px (none : Option V) (← parseFloat sigma) sInt (Active.defaultParams n 1)) with A := A }
+  let r := Active.generate s around zs rInt
+  some (sMat (r.map (·.1)) ++ " " ++ sMat (r.map (·.2)))
+
+def opActIntMut (dim lam iIR rands geoms signs : String) : Option String := do
+  let dim ← parseNat dim; let lam ← parseNat lam
+  let iIR ← pNats iIR; let rands ← pVec rands; let geoms ← pNats geoms; let signs ← pNats2 signs
+  if !(rands.length == (if iIR.isEmpty then 0 else lam) && iIR.all (· < dim)
+       && (iIR.isEmpty || (signs.length == lam && allLen dim signs))) then none
+  let s0 : Active.State V Float :=
+    Active.init 0 (List.replicate dim 0.0) (none : Option V) 1.0 (List.replicate dim 0.0)
+      (Active.defaultParams dim lam)
+  let s := { s0 with iIR := iIR }
+  some (sMat (Active.integerMutation s rands geoms signs))
 
 def handle : List String → String
+  | ["op-params", dim, lam] =>
+    match (do let d ← parseNat dim; let l ← parseNat lam; pure (d, l)) with
+    | some (d, l) =>
+      let p : OnePlus.Params Float := OnePlus.defaultParams d l
+      " ".intercalate ([p.d, p.ptarg, p.cp, p.cc, p.ccov, p.pthresh].map sF)
+    | none => "bad-op"
+  | ["op-gen", px, sigma, A, arz] =>
+    match (do
+      let px ← pVec px; let A ← pMat A; let arz ← pMat arz
+      if !(square px.length A && allLen px.length arz) then none
+      let s : OnePlus.State V Float :=
+        { (OnePlus.init { id := 0, x := px, fit := [] } (← parseFloat sigma) (OnePlus.defaultParams px.length 1))
+          with A := A }
+      pure (sMat (OnePlus.generate s arz))) with
+    | some r => r
+    | none => "bad-op"
+  | "op-upd" :: args => (opUpd args).getD "bad-op"
+  | "elit" :: lam :: pid :: pfit :: rounds => (opElit lam pid pfit rounds).getD "bad-op"
+  | ["mo-params", dim, mu, lam] =>
+    match (do pure (← parseNat dim, ← parseNat mu, ← parseNat lam)) with
+    | some (d, m, l) =>
+      let p : MO.Params Float := MO.defaultParams d m l
+      " ".intercalate ([p.d, p.ptarg, p.cp, p.cc, p.ccov, p.pthresh].map sF)
+    | none => "bad-op"
+  | ["mo-sel", mu, ncand, fronts, tape] => (opMoSel mu ncand fronts tape).getD "bad-op"
+  | ["mo-r1", invCh, A, alpha, beta, v] =>
+    match (do
+      let v ← pVec v; let invCh ← pMat invCh; let A ← pMat A
+      if !(square v.length invCh && square v.length A) then none
+      let r := MO.rankOneUpdate v.length invCh A (← parseFloat alpha) (← parseFloat beta) v
+      pure (sMat r.1 ++ " " ++ sMat r.2)) with
+    | some r => r
+    | none => "bad-op"
+  | "mo-gen" :: args => (opMoGen args).getD "bad-op"
+  | "mo-upd" :: args => (opMoUpd args).getD "bad-op"
+  | ["act-params", dim, lam] =>
+    match (do pure (← parseNat dim, ← parseNat lam)) with
+    | some (d, l) =>
+      let p : Active.Params Float := Active.defaultParams d l
+      " ".intercalate ([p.cc, p.ccovp, p.ccovn, p.cconst, p.pthresh, p.d, p.ptarg, p.cp, p.beta].map sF)
+    | none => "bad-op"
+  | ["act-init", px, sigma, steps] =>
+    match (do
+      let px ← pVec px; let st ← pVec steps
+      if px.length != st.length then none
+      let s : Active.State V Float :=
+        Active.init 0 px (none : Option V) (← parseFloat sigma) st (Active.defaultParams px.length 1)
+      pure (sNats s.iIR)) with
+    | some r => r
+    | none => "bad-op"
+  | ["act-intmut", dim, lam, iIR, rands, geoms, signs] =>
+    (opActIntMut dim lam iIR rands geoms signs).getD "bad-op"
+  | ["act-gen", px, sigma, A, sInt, zs, rInt] => (opActGen px sigma A sInt zs rInt).getD "bad-op"
+  | "act-upd" :: args => (opActUpd args).getD "bad-op"
   | _ => "bad-op"
 
 end DriverC14
